@@ -714,8 +714,9 @@ class Particle:
     @charge.setter
     def charge(self, value: float) -> None:
         # this is for the case a parton is created from the JETSCAPE reader
-        # handle quarks with 3 times the charge to make it integer
-        if np.abs(value) < 1:
+        # handle fractionally charged partons (quarks, diquarks) with 3 times
+        # the charge to make it integer
+        if value % 1 != 0:
             value *= 3
         self.data_[12] = value
 
